@@ -43,6 +43,10 @@ func main() {
 				tier = os.Args[i+1]
 			}
 		}
+		if tier == "thorough" && os.Getenv("VERIF_XCHECK") == "" {
+			// thorough: the second solver also re-decides every unsat verdict that prunes a branch
+			os.Setenv("VERIF_XCHECK", "all")
+		}
 		if tier != "thorough" {
 			tier = "quick"
 		}
